@@ -276,6 +276,13 @@ class _Canon(ast.NodeTransformer):
 
     def visit_Call(self, node):
         self.generic_visit(node)
+        # f((x for x in xs))  ->  f(xs)      (an identity generator handed to a consumer of iterables)
+        for i, a in enumerate(node.args):
+            if isinstance(a, ast.GeneratorExp) and len(a.generators) == 1 and not a.generators[0].ifs and \
+                    isinstance(a.generators[0].target, ast.Name) and isinstance(a.elt, ast.Name) and \
+                    a.elt.id == a.generators[0].target.id and isinstance(node.func, ast.Attribute) and \
+                    node.func.attr in ("from_iterable",):
+                node.args[i] = a.generators[0].iter
         # np.concatenate([a, b], axis=0)  ->  np.concatenate((a, b))
         if isinstance(node.func, ast.Attribute) and node.func.attr == "concatenate" and node.args and \
                 isinstance(node.args[0], (ast.List, ast.Tuple)) and len(node.args) == 1:
